@@ -425,6 +425,7 @@ func cmdMeta(args []string) *Result {
 		n = 300000
 	}
 	src.mixed(n, emit)
+	src.structured(thorough, emit)
 	exhaustive([]string{"a", " ", "\n", ">", "-", "#", "`", "1.", "*", "\\", "[", "]"}, map[bool]int{false: 4, true: 5}[thorough], emit)
 	return res
 }
